@@ -22,7 +22,7 @@ def be_objects(wdir, gdir, opt, triple='mips64-unknown-linux-gnu', identity=Fals
     srcs = core.repo_sources() + sorted(glob.glob(os.path.join(gdir, 'wrap_*.c'))) + [os.path.join(core.ROOT, 'world', w) for w in WSRC] + list(extra)
     optf = ['-O0'] if opt == '-O0' else [opt, '-fno-vectorize', '-fno-slp-vectorize']
     common = ['clang', '--target=' + triple, '-std=gnu99', '-ffreestanding', '-nostdinc', '-isystem', os.path.join(res, 'include'),
-              '-I' + os.path.join(core.ROOT, 'be', 'shim'), '-I' + os.path.join(core.REPO, 'include'), '-I' + os.path.join(core.REPO, 'src'), '-I' + os.path.join(core.ROOT, 'world')] + optf
+              '-I' + os.path.join(core.ROOT, 'be', 'shim'), *core.lib_flags(), '-I' + os.path.join(core.ROOT, 'world')] + optf
     jobs = []
     for s in srcs:
         base = os.path.join(wdir, core.objname(s)[:-2])
@@ -48,7 +48,7 @@ def build(b):
     # native little-endian world (gcc -O2), as in the other checks
     wn = core.build_world(os.path.join(b, 'w_native'), g, world_srcs=WSRC)
     o2 = os.path.join(b, 'w_native', 'wrap_bo2.o')
-    core.par([['gcc', '-std=gnu99', '-O2', '-I' + os.path.join(core.REPO, 'include'), '-I' + os.path.join(core.REPO, 'src'), '-DW_BO=w_bo2', '-DW_FORCE_BIG', '-Wno-builtin-macro-redefined', '-c',
+    core.par([['gcc', '-std=gnu99', '-O2', *core.lib_flags(), '-DW_BO=w_bo2', '-DW_FORCE_BIG', '-Wno-builtin-macro-redefined', '-c',
                os.path.join(core.ROOT, 'world', 'wrap_bo.c'), '-o', o2]])
     exes['native-le'] = (core.link(os.path.join(b, 'ef_native'), nf + wn + [o2]), core.link(os.path.join(b, 'es_native'), ns + wn + [o2]))
     for name, opt, triple, ident in (('be-O0', '-O0', 'mips64-unknown-linux-gnu', False), ('be-O1', '-O1', 'mips64-unknown-linux-gnu', False),
